@@ -22,6 +22,7 @@ type candidate struct {
 	regHeight uint64 // height of the add request that registered it (ground truth), 0 = not registered
 	state     string // "", pending, boarding, member, removed
 	hashOK    bool   // the registered key hash really is sha256(bls key)
+	rejoin    bool   // a former member registering again: its account exists, so it is parked for removal instead of boarding
 }
 
 // voterProofs builds the two proofs of possession for a registration context.
@@ -216,6 +217,38 @@ func c16History(c *vc.Ctx, idx int) {
 				logf("EL: add voter cand%d (hash ok=%v)", len(cands)-1, cd.hashOK)
 			}
 		}
+		if r.Intn(4) == 0 {
+			// a re-joining address: a former member (its record was deleted by an election, its account still exists)
+			// is registered again, with the right key hash; it can then prove possession like any other candidate
+			pool := append([]*world.Member{}, w.Members...)
+			for _, cd := range cands {
+				pool = append(pool, cd.m)
+			}
+			var former []*world.Member
+			for _, m := range pool {
+				if _, _, has := ch.Account(m.Addr); has && statusOf(m.Addr) == relayertypes.VOTER_STATUS_UNSPECIFIED {
+					former = append(former, m)
+				}
+			}
+			if len(former) > 0 {
+				m := former[r.Intn(len(former))]
+				var cd *candidate
+				for _, x := range cands {
+					if x.m == m {
+						cd = x
+					}
+				}
+				if cd == nil {
+					cd = &candidate{m: m}
+					cands = append(cands, cd)
+				}
+				kh := sha256.Sum256(m.BLSPub)
+				cd.hashOK, cd.rejoin, cd.state, cd.regHeight = true, true, "pending", uint64(ch.Height+1)
+				rq.Adds = append(rq.Adds, &goattypes.AddVoterRequest{Voter: common.BytesToAddress(m.Addr), Pubkey: common.BytesToHash(kh[:])})
+				c.Count("former_members_registered_again", 1)
+				logf("EL: add a former member again (%s)", m.AddrStr)
+			}
+		}
 		if r.Intn(8) == 0 && len(cands) > 0 { // add again: existing record, must be ignored
 			cd := cands[r.Intn(len(cands))]
 			kh := sha256.Sum256([]byte("other"))
@@ -329,6 +362,10 @@ func c16History(c *vc.Ctx, idx int) {
 						viol("a voter was admitted without valid proofs bound to this chain, epoch, registration and proposer: "+variant, fmt.Sprintf("cand%d status %s hash ok=%v registered at %d (record says %d)", ci, st, cd.hashOK, cd.regHeight, regHeight))
 					}
 					cd.state = "boarding"
+					if cd.rejoin {
+						cd.state = "parked" // its account exists: the code parks it for removal at the next election
+						c.Count("rejoining_addresses_proven", 1)
+					}
 					joins++
 					c.Count("voters_admitted", 1)
 				} else if genuine {
